@@ -32,7 +32,10 @@ MANIFEST = dict(
          'converted or checked (field defaults, example values, route attributes, annotation arguments, annotation-type '
          'parameter defaults, type arguments) for every primitive type plain / bounded / nullable / behind an alias '
          '(fe.literals), and a grid of argument shapes (0-3 positional x 0-2 keyword arguments, mixed, duplicated, '
-         'unknown, bare) for every built-in annotation type and four custom ones (fe.annargs), one generated spec cut '
+         'unknown, bare) for every built-in annotation type and four custom ones (fe.annargs), the fixed catalogue of '
+         'minimal illegal specs (one or more per reachable `raise InvalidSpec(` / parser / lexer error site, each beside its '
+         'legal neighbour: fe.sites) and the grid of doc-reference texts x the docstrings that carry them (fe.docrefs) of '
+         'C01, one generated spec cut '
          'before every token (with and without a final newline, alone and after whole files), every recursively followed '
          'construct nested / chained 150 and 3000 times - with the oracle "returns, or raises InvalidSpec with a non-empty str '
          'message, int|None line and a path among the inputs". The command line (stone.cli.main in-process, throw-away '
@@ -70,6 +73,8 @@ def run(ck):
     fe_rules.suite_annargs(ck, report='C03')
     fe_rules.suite_names(ck, report='C03', n=ck.scale(1200, 10000))
     fe_rules.suite_violations(ck, n_models=ck.scale(10, 150), per_rule=ck.scale(2, 6), report='C03')
+    fe_rules.suite_sites(ck, report='C03')
+    fe_rules.suite_docrefs(ck, report='C03')
     ck.assumptions.extend([
         'type arguments reach _instantiate_data_type as literals, the null token or resolved types (what the parser builds)',
         'termination of the real compiler is observed with a processor-time limit, not proved',
